@@ -15,12 +15,12 @@ var ruleC12 = ruleW2 + "C12: requests of several containers run concurrently (se
 var ruleC14 = ruleW2 + "C14: requests run one at a time (the quantifier is inputs x histories), with one exception that belongs to the histories of a real node: the teardown of an old sandbox " +
 	"(kubelet's container GC / PLEG cleanup) may overlap the ADD of the same pod's replacement sandbox, and DELs of earlier sandboxes may be repeated late; prior NAT tables with foreign chains, stale KUBE-HP-* chains and earlier jump rules; foreign " +
 	"processes bind ports (net.inuse), iptables calls fail (transient 'Resource temporarily unavailable' and hard), state-file writes fail; graceful daemon restarts re-run the full " +
-	"synchronisation (another process may take a handed-out port while the daemon is down: the rules must still be installed); pod Get/Update calls of the annotation write-back fail, conflict with edits by others, or meet a pod whose annotations were removed; plugins may print results without a usable IPv4 address; at the end every pod is torn down and the table is compared with the one after the first synchronisation. A run is non-trivial if at least one pod with host ports " +
+	"synchronisation (pods whose sandbox is up may still be Pending; another process may take a handed-out port while the daemon is down: the rules must still be installed); pod Get/Update calls of the annotation write-back fail, conflict with edits by others, or meet a pod whose annotations were removed; plugins may print results without a usable IPv4 address; at the end every pod is torn down and the table is compared with the one after the first synchronisation. A run is non-trivial if at least one pod with host ports " +
 	"was set up successfully. distinct_nontrivial as above."
 
 var ruleC17 = ruleW2 + "C17: docker and containerd modes; GC directories and IP directories populated by real ADDs (the fake plugin leaves flannel/host-local style files) and by generated " +
 	"leftovers of containers in every runtime state plus non-container files; sandboxes die with and without DEL; inspect calls fail (runtime.err) or the runtime is unreachable " +
-	"(runtime.down); port files are damaged by short/failed writes of the daemon itself, by daemon crashes and as generated leftovers (empty, truncated, junk); operations do not overlap (the quantifier is inputs x fault sequences) but the two collectors of a round interleave. After faults stop two GC rounds run and the " +
+	"(runtime.down); in a third of the runs the daemon's --gc_dirs omits the port directory (port files and mappings are then owed only through the port-clean callback of a container's other state files); port files are damaged by short/failed writes of the daemon itself, by daemon crashes and as generated leftovers (empty, truncated, junk); operations do not overlap (the quantifier is inputs x fault sequences) but the two collectors of a round interleave. After faults stop two GC rounds run and the " +
 	"liveness clause is checked. Under containerd the pods of sandboxes report container statuses (waiting / running / terminated mixes, lagging kubelet, replacement sandboxes); host network devices are generated too (host veths v-h<9 chars of id>[-x] of containers in every state, non-veth devices with that prefix, other prefixes, three-part names) and the veth collector runs with the others (deletions can fail). A run is non-trivial if a GC task removed something or an inspect fault fired. distinct_nontrivial as above."
 
 var assumeW2 = []string{
